@@ -240,6 +240,9 @@ void do_op(string op) {
   case "inputto": // inputto <flags> <script>
     input_to("got_input", to_int(a[1]), sub(implode(a[2..], " ")));
     break;
+  case "gcl":     // perpetual single-character mode: every character re-arms get_char
+    get_char("got_char", 0, "gcl");
+    break;
   case "getchar":
     get_char("got_char", to_int(a[1]), sub(implode(a[2..], " ")));
     break;
